@@ -9,6 +9,9 @@ import (
 	"fmt"
 	"os"
 	"path/filepath"
+	"runtime/debug"
+	"runtime/pprof"
+	"strconv"
 	"strings"
 	"time"
 
@@ -39,7 +42,19 @@ func main() {
 	solvers := flag.String("solvers", "", "comma-separated back ends (z3,cvc5-int,z3-new,cvc5)")
 	tier := flag.String("tier", "quick", "quick or thorough (selects vBound values)")
 	trail := flag.String("trail", "", "replay: JSON file with a violation (trail + inputs) to re-execute concretely")
+	cpuprof := flag.String("cpuprofile", "", "write a CPU profile")
 	flag.Parse()
+	if g := os.Getenv("GOSYM_GOGC"); g != "" {
+		n, _ := strconv.Atoi(g)
+		debug.SetGCPercent(n)
+	} else {
+		debug.SetGCPercent(100)
+	}
+	if *cpuprof != "" {
+		f, _ := os.Create(*cpuprof)
+		pprof.StartCPUProfile(f)
+		defer pprof.StopCPUProfile()
+	}
 
 	t0 := time.Now()
 	ov := map[string][]byte{}
